@@ -206,7 +206,11 @@ def main(tier, seed):
         if r is not None and r.get("line"):
             lines.append(r["line"])
             idx.append(i)
-    out = Driver().query(lines) if built else []
+    try:
+        out = Driver().query(lines, timeout=600 if tier == "quick" else 2400) if built else []
+    except Exception as e:          # a model that does not answer is a broken correspondence, not a crash
+        chk.oblige("the extracted model answers every history", False, f"{type(e).__name__}: {str(e)[:300]}")
+        out, idx = [], []
     mism, bad_free, skipped, refused, known_hits, outside = [], [], {}, 0, 0, 0
     for i, (c, r) in enumerate(zip(cases, results)):
         if r is None:
